@@ -86,6 +86,8 @@ pub fn run_c13(ctx: &mut Ctx) {
         or.eval(("threads", r), true); or.count("thread_stress_rounds");
     }
     or.notes.push("the thread stress also shows no acquirer is stranded: all 8 x 300 acquisitions complete".into());
+    // the permit lives exactly as long as the connection task (Token::run): probes of a saturated semaphore around real connections
+    crate::runfam::c13_conn(ctx, &mut log, &mut im, &mut or);
     or.count_n("corr_ops", log.nops);
     log.finish();
     or.write(&ctx.dir);
@@ -141,28 +143,54 @@ pub fn c14_wg(ctx: &mut Ctx, log: &mut Log, im: &mut Impl, or: &mut Oracle) {
         or.eval((ci, n), true); or.count("waitgroup_histories");
     }
     // real threads: the last drop racing with a poll (failing-input search; the step-level interleavings are covered by the theorem)
-    let rounds = ctx.n(2000, 40_000);
-    let mut lost = 0u64;
-    for _ in 0..rounds {
-        let runner = config(8192, 2).async_runner();
-        let w = futures_util::task::noop_waker(); let mut cx0 = Context::from_waker(&w);
-        let tok = { let f = runner.get_token(); futures_util::pin_mut!(f); match f.poll(&mut cx0) { Poll::Ready(t) => t, Poll::Pending => continue } };
-        let mut fut = Box::pin(runner.shutdown());
-        let cw = Arc::new(CountWaker(Default::default()));
-        let waker = std::task::Waker::from(cw.clone());
-        let h = std::thread::spawn(move || { std::hint::spin_loop(); drop(tok); });
-        let mut cx = Context::from_waker(&waker);
-        let mut last_pending_at = None;
-        for _ in 0..3 { match fut.as_mut().poll(&mut cx) { Poll::Ready(()) => { last_pending_at = None; break; } Poll::Pending => { last_pending_at = Some(cw.0.load(Ordering::SeqCst)); } } }
-        let _ = h.join();
-        if let Some(at) = last_pending_at {
-            // the token is gone now: the task must have been woken after that last Pending … unless the wake came during the poll itself
-            let now = cw.0.load(Ordering::SeqCst);
-            let ready_now = fut.as_mut().poll(&mut cx).is_ready();
-            if !ready_now { or.fail("shutdown future pending after the last token was dropped on another thread".into(), "# case thread-race".into(), "C14:not-completing-threads".into()); }
-            if now == 0 && at == 0 { lost += 1; }
+    // One persistent dropper thread; per round the two threads are released together and their relative timing is swept
+    // (spin counts), so that the FIRST poll of a fresh shutdown future overlaps the drop of the last token.  A first poll
+    // that returns Pending must be followed by a wake (there is no earlier registration that could mask a lost one).
+    let rounds = ctx.n(60_000, 1_500_000);
+    let mut lost = 0u64; let mut overlapped = 0u64;
+    {
+        use std::sync::atomic::{AtomicBool, AtomicUsize as AU}; use std::sync::Mutex;
+        let slot: Arc<Mutex<Option<fastcgi_server::async_io::Token>>> = Arc::new(Mutex::new(None));
+        let phase = Arc::new(AU::new(0)); let stopf = Arc::new(AtomicBool::new(false)); let spin = Arc::new(AU::new(0));
+        let dropper = { let (slot, phase, stopf, spin) = (slot.clone(), phase.clone(), stopf.clone(), spin.clone());
+            std::thread::spawn(move || { let mut round = 0usize; loop {
+                while phase.load(Ordering::Acquire) != 2 * round + 1 { if stopf.load(Ordering::Relaxed) { return; } std::hint::spin_loop(); }
+                let token = slot.lock().unwrap().take();
+                for _ in 0..spin.load(Ordering::Relaxed) { std::hint::spin_loop(); }
+                drop(token);
+                phase.store(2 * round + 2, Ordering::Release);
+                round += 1;
+            } }) };
+        let t0 = std::time::Instant::now();
+        let mut done_rounds = 0u64;
+        for round in 0..rounds as usize {
+            if t0.elapsed().as_secs() > if ctx.tier_thorough { 120 } else { 20 } { break; }
+            let runner = config(8192, 2).async_runner();
+            let w = futures_util::task::noop_waker(); let mut cx0 = Context::from_waker(&w);
+            let tok = { let f = runner.get_token(); futures_util::pin_mut!(f); match f.poll(&mut cx0) { Poll::Ready(t) => t, Poll::Pending => { phase.store(2 * round + 1, Ordering::Release); while phase.load(Ordering::Acquire) != 2 * round + 2 { std::hint::spin_loop(); } continue } } };
+            *slot.lock().unwrap() = Some(tok);
+            let cw = Arc::new(CountWaker(Default::default()));
+            let waker = std::task::Waker::from(cw.clone());
+            let mut cx = Context::from_waker(&waker);
+            let mut fut = Box::pin(runner.shutdown());
+            spin.store(round % 61, Ordering::Relaxed);
+            let my_spin = (round / 61) % 61 + 40;
+            phase.store(2 * round + 1, Ordering::Release);
+            for _ in 0..my_spin { std::hint::spin_loop(); }
+            let first = fut.as_mut().poll(&mut cx);
+            while phase.load(Ordering::Acquire) != 2 * round + 2 { std::hint::spin_loop(); }
+            done_rounds += 1;
+            if first.is_pending() {
+                overlapped += 1;
+                if cw.0.load(Ordering::SeqCst) == 0 { lost += 1; }
+                else if !fut.as_mut().poll(&mut cx).is_ready() { or.fail("shutdown future pending after the last token was dropped on another thread".into(), "# case thread-race".into(), "C14:not-completing-threads".into()); }
+            }
         }
+        stopf.store(true, Ordering::Relaxed);
+        let _ = dropper.join();
+        or.count_n("thread_race_rounds_run", done_rounds);
+        or.count_n("thread_race_first_poll_before_drop_completed", overlapped);
     }
-    if lost > 0 { or.fail(format!("{lost} race round(s): poll returned Pending, the last token was dropped concurrently, and the waker was never invoked"), "# case thread-race".into(), "C14:lost-wake-threads".into()); }
+    if lost > 0 { or.fail(format!("{lost} race round(s): the first poll returned Pending, the last token was dropped concurrently, and the waker was never invoked"), "# case thread-race".into(), "C14:lost-wake-threads".into()); }
     or.count_n("thread_race_rounds", rounds);
 }
